@@ -541,7 +541,15 @@ func shrinkGCase(c *GCase) []*GCase {
 	last := len(c.Runs) - 1
 	for _, f := range []func(*Inv){
 		func(v *Inv) { v.Quiet, v.Verbose = 0, 0 },
-		func(v *Inv) { v.Long, v.Bundle, v.DashDash, v.FilesFirst = false, false, false, false },
+		func(v *Inv) {
+			v.Long, v.Bundle, v.FilesFirst = false, false, false
+			v.DashDash = false
+			for _, f := range v.Files {
+				if f != "" && f[0] == '-' && f != "-" {
+					v.DashDash = true // operands with a leading dash need "--"
+				}
+			}
+		},
 		func(v *Inv) { v.Keep = false },
 		func(v *Inv) { v.Force = false },
 		func(v *Inv) { v.Preset = 0 },
